@@ -107,14 +107,22 @@ Theorem interrupt_clean : forall c fuel e p s o s',
 Proof. exact Clean.interrupt_clean_from. Qed.
 
 Definition w_gen : code := CCons (IGen (SCons (CCons IProbe CNil) (SCons (CCons IProbe CNil) SNil))) CNil.
-Definition w_async : code := CCons (IAsync (CCons IProbe CNil) (CCons IProbe CNil)) CNil.
+Definition w_async : code := CCons (IAsyncN (SCons (CCons IProbe CNil) SNil) (SCons (CCons IProbe CNil) SNil)) CNil.
+(* outer awaits middle awaits inner; the interrupt arrives in inner after its await *)
+Definition w_async3 : code :=
+  CCons (IAsyncN (SCons CNil (SCons CNil (SCons CNil SNil)))
+                 (SCons (CCons IProbe (CCons (IEv 8%N) CNil)) (SCons (CCons (IEv 16%N) CNil) (SCons (CCons (IEv 24%N) CNil) SNil)))) CNil.
 Definition w_iter : code := CCons (IForOf (Some 11%N) (SCons (CCons IProbe CNil) (SCons (CCons IProbe CNil) SNil))) CNil.
 
 Example interrupt_clean_on_former_witnesses :
   (let '(o, s) := run_top (mkCfg 2 false None) 8 ERun w_gen idle0 in o = OIntr 1002%N /\ is_idle s = true) /\
   (let '(o, s) := run_top (mkCfg 2 false None) 8 ERun w_async idle0 in o = OIntr 1002%N /\ is_idle s = true) /\
   (let '(o, s) := run_top (mkCfg 1 false None) 8 ERun w_iter idle0 in
-   o = OIntr 1001%N /\ is_idle s = true /\ rev (log s) = [7%N]).
+   o = OIntr 1001%N /\ is_idle s = true /\ rev (log s) = [7%N]) /\
+  (let '(o, s) := run_top (mkCfg 1 false None) 8 ERun w_async3 idle0 in
+   o = OIntr 1001%N /\ is_idle s = true /\ rev (log s) = [7%N]) /\
+  (let '(o, s) := run_top (mkCfg 0 false None) 8 ERun w_async3 idle0 in
+   o = ONorm /\ is_idle s = true /\ rev (log s) = [7%N; 8%N; 16%N; 24%N]).
 Proof. vm_compute. repeat split. Qed.
 
 (* ---- non-vacuity -------------------------------------------------------------------------- *)
